@@ -104,7 +104,7 @@ TEXT = {
     },
     "C08": {
         "text": "Exploration of schedules and histories: a receiver device with an activated group context runs on sync-point-instrumented sources (message store, chain-key path of the group context, queues); prepared log entries of 1-3 senders are delivered by plans "
-                "(messages singly / batched, announcement before, between, after them, messages sealed before the announcement, early close); each plan runs un-perturbed, under jitter and under pair plans that suspend one of the store's own tasks at a sync point until another task passed one of its own; "
+                "(messages singly / batched, announcement before, between, after them, messages sealed before the announcement, a backlog larger than the key window, deliveries made while the group is being activated, early close); each plan runs un-perturbed, under jitter and under pair plans that suspend one of the store's own tasks at a sync point until another task passed one of its own; "
                 "quiescence is decided from hit counters and goroutine states; the oracle is conservation: delivered == arrived and decryptable, exactly once, right payload and sender, nothing decryptable parked, queue empty.",
         "note": "Pair forcing at the instrumented points plus jitter, not all interleavings. Per-sender message counts stay below the key window except in two backlog scenarios (receiver window 3, 9-message batch).",
         "technique": "runtime monitoring: forced interleavings via build-overlay sync points + conservation oracle at counter/goroutine-defined quiescence",
